@@ -398,15 +398,13 @@ def rule_primitives(ctx: Ctx, out: Collector) -> None:
 
 def _under_lock(ctx: Ctx, g: Graph, ev: Ev) -> bool:
     recv = ctx.roles.recv_term(ev)
-    # syntactic: the call is inside an `async with X` of the same activation whose X is the receiver
-    unit = ev.inst.unit
-    for n in ast.walk(unit.node):
-        if isinstance(n, ast.AsyncWith):
-            inside = any(c is ev.node for c in ast.walk(n))
-            if inside:
-                for item in n.items:
-                    if sym.term(ctx.p, item.context_expr, ev.inst) == recv:
-                        return True
+    # the call lies inside the critical section (`async with X`, or the equivalent acquire / try / finally
+    # release the graph builder normalises to it) of the same activation whose X is the receiver
+    for en in g.events('enter'):
+        if en.inst is not ev.inst or not en.info.get('is_async'):
+            continue
+        if any(c is ev.node for c in ast.walk(en.node)) and sym.term(ctx.p, en.info['expr'], ev.inst) == recv:
+            return True
     return False
 
 
